@@ -132,6 +132,7 @@ QuadLaws2(M) == \A k \in 0..(M.nv - 1) :
                                           vars |-> [i \in 1..NX(M) |-> <<Trap1x2(XsecX(M, i - 1), k)>>]], 0)
 
 (* ---------------------------------------------------------------- interpolation laws *)
+ILog == CHOOSE r \in 0..10 : 2 ^ r = IScale
 InterpLaws(M0) ==
   LET M == Refine1(M0, IScale)
   IN \A P \in (M.xn[1])..(M.xn[N1(M)]) :
@@ -146,6 +147,11 @@ InterpLaws(M0) ==
                /\ r[1] * (xr - xl) = (vl * (xr - P) + vr * (P - xl)) * r[2]       \* the linear interpolant, cross-multiplied
                /\ (P = xl => r = <<vl, 1>>) /\ (P = xr => r = <<vr, 1>>)           \* nodal values at the nodes
                /\ r = Interp1(M, P)[v]                                             \* whichever cell the search takes
+       \* the node-relative form (InterpOff on the UNREFINED mesh) gives the same value
+       /\ \A k \in 0..(N1(M0) - 1) :
+            LET s == P - M.xn[k + 1]
+                c == OffCell(M0, k, s)
+            IN (M.xn[c + 1] <= P /\ P <= M.xn[c + 2]) => InterpOff(M0, k, s, ILog) = Interp1(M, P)
        /\ (\E k \in 1..N1(M) : P = M.xn[k]) =>
              \A k \in 1..N1(M) : P = M.xn[k] => Interp1(M, P) = [v \in 1..M.nv |-> <<M.vars[k][v], 1>>]
 
